@@ -55,6 +55,16 @@ fn solo(v: &Value) -> Result<CaseReport, String> {
     run_solo(v, report)
 }
 
+fn garbage_tail(_ctx: &Ctx, ev: &mut Value) -> Option<Violation> {
+    match crate::props::scenarios::trailing_garbage_growth() {
+        Ok(n) => {
+            ev["coverage"]["trailing_garbage_scenario_steps"] = serde_json::json!(n);
+            None
+        }
+        Err(v) => Some(v),
+    }
+}
+
 pub fn def() -> PropDef {
     PropDef {
         id: "C08",
@@ -66,7 +76,7 @@ pub fn def() -> PropDef {
         worker,
         solo,
         hang_cpu_s: 30.0,
-        extra: None,
+        extra: Some(garbage_tail),
         confirm_known: false,
     }
 }
